@@ -134,6 +134,25 @@ type Config struct {
 	MkFS func() (hackpadfs.FS, func(), error)
 	// SkipBranchPrefixes: transitions whose branch has one of these prefixes are not applied.
 	SkipBranchPrefixes []string
+	// PropErrPath: property for error type / path-field mismatches (defaults to PropErr).
+	PropErrPath string
+	// RawNames: paths in calls are raw token sequences joined with "/" literally (NameGate.tla);
+	// the token BADUTF8 stands for bytes that are not valid UTF-8.
+	RawNames bool
+	// GateOnly: the file system is a composition whose mutating operations need not follow FSCore for valid names
+	// (read-only views, mount points): for valid names a mutator is only required not to be refused as invalid.
+	GateOnly bool
+	// CheckRootName: compare the Name() Stat reports for "." (only meaningful for the plain in-memory file systems).
+	CheckRootName bool
+	// MkFSFrom, when set, builds the file system from the initial model tree itself (read-only compositions).
+	MkFSFrom func(init *tla.Value, populate func(hackpadfs.FS) error) (hackpadfs.FS, func(), error)
+}
+
+func (c *Config) errPathProp() string {
+	if c.PropErrPath != "" {
+		return c.PropErrPath
+	}
+	return c.PropErr
 }
 
 type Adapter struct{ Cfg Config }
@@ -141,6 +160,18 @@ type Adapter struct{ Cfg Config }
 func (a *Adapter) Name() string { return a.Cfg.AdapterName }
 
 func (a *Adapter) New(init *tla.Value) (engine.Instance, error) {
+	if a.Cfg.MkFSFrom != nil {
+		in := &Inst{cfg: &a.Cfg}
+		fs, cleanup, err := a.Cfg.MkFSFrom(init, func(w hackpadfs.FS) error {
+			tmp := &Inst{cfg: &a.Cfg, fs: w}
+			return tmp.constructImpl(init)
+		})
+		if err != nil {
+			return nil, err
+		}
+		in.fs, in.cleanup = fs, cleanup
+		return in, nil
+	}
 	fs, cleanup, err := a.Cfg.MkFS()
 	if err != nil {
 		return nil, err
@@ -161,6 +192,15 @@ type Inst struct {
 	dirty   bool
 	// after a tolerated root-emptying call the expected state is the empty root
 	emptied bool
+	// the last call's effect is not specified: do not compare the state (the instance is rebuilt)
+	skipState bool
+}
+
+// offered reports whether the file system offers call's operation for a valid name at all.
+func (in *Inst) offered(call *tla.Value) bool {
+	in.dirty = true
+	o := Do(in.fs, call.F("op").S, "zz-valid-probe", "zz-valid-probe2", flagOf(call.F("f")), hackpadfs.FileMode(call.F("perm").I), nil, "T1")
+	return o.Kind != "ENOSYS"
 }
 
 func (in *Inst) FS() hackpadfs.FS { return in.fs }
@@ -235,6 +275,16 @@ func (in *Inst) name(n string) string {
 func (in *Inst) path(p *tla.Value) string {
 	if len(p.E) == 0 {
 		return "."
+	}
+	if in.cfg.RawNames {
+		parts := make([]string, len(p.E))
+		for i := range p.E {
+			parts[i] = p.E[i].S
+			if parts[i] == "BADUTF8" {
+				parts[i] = "\xff\xfe"
+			}
+		}
+		return strings.Join(parts, "/")
 	}
 	parts := make([]string, len(p.E))
 	for i := range p.E {
@@ -346,6 +396,20 @@ func Do(fs hackpadfs.FS, op, p, q string, flag int, perm hackpadfs.FileMode, dat
 		if err == nil {
 			o.Out = b
 		}
+	case "create":
+		var f hackpadfs.File
+		f, err = hackpadfs.Create(fs, p)
+		if f != nil {
+			_ = f.Close()
+		}
+	case "lstat":
+		_, err = hackpadfs.Lstat(fs, p)
+	case "chown":
+		err = hackpadfs.Chown(fs, p, 0, 0)
+	case "sub":
+		_, err = hackpadfs.Sub(fs, p)
+	case "symlink":
+		err = hackpadfs.Symlink(fs, p, q)
 	default:
 		panic("unknown op " + op)
 	}
@@ -404,6 +468,49 @@ func (in *Inst) CheckResult(call, tr *tla.Value, obsAny any) []engine.Div {
 		in.dirty = true
 		return divs
 	}
+	if exp == "NOTNAME" {
+		// a valid name given to an operation outside the namespace specification: it only must not be refused as invalid
+		in.dirty, in.skipState = true, true
+		if o.Kind == "EINVAL" {
+			add(cfg.PropState, "valid name refused as invalid", o.String())
+		}
+		return divs
+	}
+	if exp == "EINVAL" && cfg.RawNames && o.Kind == "ENOSYS" && !in.offered(call) {
+		// the file system does not offer this operation at all (also not for valid names)
+		return divs
+	}
+	if cfg.RawNames && strings.HasPrefix(tr.F("b").S, "valid/") {
+		// C04 judges valid names only for its own clause: bytes such as backslash, colon or a leading ".." are
+		// ordinary name bytes. Plain names are the business of C01/C06/C07 (checked elsewhere).
+		special := false
+		for _, pv := range []*tla.Value{call.F("p"), call.F("q")} {
+			for i := range pv.E {
+				t := pv.E[i].S
+				if strings.ContainsAny(t, "\\:") || (strings.HasPrefix(t, "..") && t != "..") {
+					special = true
+				}
+			}
+		}
+		if !special {
+			in.dirty, in.skipState = true, true
+			return nil
+		}
+		if o.Kind == "ENOSYS" {
+			// valid name, operation not offered by this file system
+			in.dirty, in.skipState = true, true
+			return divs
+		}
+		op := call.F("op").S
+		mutator := !(op == "stat" || op == "readdir" || op == "readfile" || (op == "open" && call.F("f").F("acc").S == "RO" && !call.F("f").F("c").B && !call.F("f").F("tr").B))
+		if cfg.GateOnly && mutator {
+			in.dirty, in.skipState = true, true
+			if o.Kind == "EINVAL" && exp != "EINVAL" && exp != "OTHER" && exp != "ROOTANY" {
+				add(cfg.PropState, "valid name refused as invalid", o.String())
+			}
+			return divs
+		}
+	}
 	if exp == "ROOTANY" {
 		// tolerated: fail and change nothing, or succeed leaving an empty root
 		if o.Err == nil {
@@ -430,7 +537,7 @@ func (in *Inst) CheckResult(call, tr *tla.Value, obsAny any) []engine.Div {
 				wantTyp = "link"
 			}
 			if o.Typ != wantTyp {
-				add(cfg.PropErr, "errtype exp="+wantTyp+" got="+o.Typ, o.String())
+				add(cfg.errPathProp(), "errtype exp="+wantTyp+" got="+o.Typ, o.String())
 			} else {
 				for i := range want.E {
 					if w := in.path(&want.E[i]); i < len(o.Paths) && o.Paths[i] != w {
@@ -445,7 +552,7 @@ func (in *Inst) CheckResult(call, tr *tla.Value, obsAny any) []engine.Div {
 						case strings.HasPrefix(o.Paths[i], w+"/"):
 							cls = "descendant"
 						}
-						add(cfg.PropErr, fmt.Sprintf("errpath[%d] exp=%s got=%s", i, exp, cls), fmt.Sprintf("want %q: %s", w, o.String()))
+						add(cfg.errPathProp(), fmt.Sprintf("errpath[%d] exp=%s got=%s", i, exp, cls), fmt.Sprintf("want %q: %s", w, o.String()))
 					}
 				}
 			}
@@ -474,7 +581,7 @@ func (in *Inst) CheckResult(call, tr *tla.Value, obsAny any) []engine.Div {
 			wantName = in.name(p.E[len(p.E)-1].S)
 		}
 		atMount := strings.HasPrefix(tr.F("b").S, "at|") // Stat of a mount point is Stat(".") of the mounted FS
-		if so.Name != wantName && !(cfg.Reference && wantName == ".") && !atMount {
+		if so.Name != wantName && cfg.CheckRootName && !atMount {
 			add(cfg.PropState, "stat name", fmt.Sprintf("got %q want %q", so.Name, wantName))
 		}
 	case "readdir":
@@ -661,6 +768,10 @@ func NewProbe(cfg *Config, fs hackpadfs.FS) *Inst { return &Inst{cfg: cfg, fs: f
 // CompareTree projects fs over the closure and compares it with the model tree exp;
 // tag is prepended to the class of each disagreement (e.g. the constituent FS it was seen in).
 func (in *Inst) CompareTree(fs hackpadfs.FS, exp *tla.Value, call, tr *tla.Value, tag string) []engine.Div {
+	if in.skipState {
+		in.skipState = false
+		return nil
+	}
 	cfg := in.cfg
 	var divs []engine.Div
 	add := func(prop, what, detail string) {
